@@ -13,4 +13,8 @@ func registerStreams(m map[string]Stream) {
 	m["c06"] = c06Stream{}
 	m["c10"] = c10Stream{}
 	m["c08"] = c08Stream{}
+	m["c17"] = c17Stream{}
+	m["c12"] = c12Stream{}
+	m["c11"] = c11Stream{}
+	m["c07"] = c07Stream{}
 }
